@@ -40,6 +40,8 @@ impl OperationControl for CharClass {
         matcher: &'b crate::re_matcher::ReMatcher,
         position: usize,
     ) -> Box<dyn Iterator<Item = usize> + 'b> {
+        #[cfg(feature = "verif-hooks")]
+        crate::verif::step(crate::verif::site::OP_CHARCLASS);
         let search = &matcher.search;
         if position < search.len() && self.character_class.contains(search[position]) {
             Box::new(std::iter::once(position + 1))
